@@ -10,7 +10,7 @@ fn main() {
     let texts = [None, Some("AB"), Some("ABC")];
     let blobs: [Option<Vec<u8>>; 3] = [None, Some(vec![1, 2]), Some(vec![1, 2, 3])];
     for sop in ["1.2.840.10008.5.1.4.1.1.1", "1.2.840.10008.5.1.4.1.1.20"] {
-        for vn in texts { for src in texts { for snd in texts { for rcv in texts { for cre in ["1.2.3", "1.2.34"] { for blob in &blobs {
+        for vn in texts { for src in texts { for snd in texts { for rcv in texts { for cre in [None, Some("1.2.3"), Some("1.2.34")] { for blob in &blobs {
             cases += 1;
             let mut b = FileMetaTableBuilder::new()
                 .media_storage_sop_class_uid(sop)
@@ -20,7 +20,8 @@ fn main() {
             if let Some(v) = src { b = b.source_application_entity_title(v); }
             if let Some(v) = snd { b = b.sending_application_entity_title(v); }
             if let Some(v) = rcv { b = b.receiving_application_entity_title(v); }
-            if let Some(v) = blob { b = b.private_information_creator_uid(cre).private_information(v.clone()); }
+            if let Some(c) = cre { b = b.private_information_creator_uid(c); }
+            if let Some(v) = blob { b = b.private_information(v.clone()); }
             let table: FileMetaTable = match b.build() { Ok(t) => t, Err(e) => { bad += 1; println!("WITNESS unit=C09.written_length build failed: {}", e); continue; } };
             let mut out = Vec::new();
             if let Err(e) = table.write(&mut out) { bad += 1; println!("WITNESS unit=C09.written_length write failed: {}", e); continue; }
@@ -35,8 +36,8 @@ fn main() {
             if !head_ok || recorded as usize != following || recorded != table.information_group_length || !same {
                 bad += 1;
                 if bad <= 6 {
-                    println!("WITNESS unit=C09.written_length version_name={:?} source_ae={:?} sending_ae={:?} receiving_ae={:?} private_information={:?}: recorded group length {} but {} bytes follow the group length element; read back equal: {}",
-                        vn, src, snd, rcv, blob, recorded, following, same);
+                    println!("WITNESS unit=C09.written_length version_name={:?} source_ae={:?} sending_ae={:?} receiving_ae={:?} private_information={:?} creator={:?}: recorded group length {} but {} bytes follow the group length element; read back equal: {}",
+                        vn, src, snd, rcv, blob, cre, recorded, following, same);
                 }
             }
         }}}}}}
